@@ -18,9 +18,11 @@ PROP = dict(
         obl('C02.guderley.shock_speed_solver_time', M, [T + 'finding_guderley_shock_speed_solver_time'],
             models=GUD, oracle=G.gud_rh_solver, finding=True),
         obl('C02.rmtv.isothermal_jump', 'EPV.Props.C02.RMTV',
-            [T + 'rmtv_jump_mass', T + 'rmtv_jump_momentum', T + 'rmtv_jump_isothermal', T + 'rmtv_jump_energy',
+            [T + 'rmtv_isothermal_shock_partial', T + 'rmtv_jump_mass', T + 'rmtv_jump_momentum', T + 'rmtv_jump_isothermal', T + 'rmtv_jump_energy',
              T + 'rmtv_jump_leaves'],
             models=['RmtvJump', 'RmtvRun'], oracle=[G.rmtv_jump, G.rmtv_pde, G.rmtv_similarity]),
+        obl('C02.rmtv.shock_position_xis', 'EPV.Props.C02.RMTV', [T + 'finding_rmtv_xis_ignored'],
+            models=['RmtvRun'], oracle=G.rmtv_xis, finding=True),
     ],
     corr_models=[],
     oracle_budget=0.4,
@@ -28,5 +30,5 @@ PROP = dict(
           'coded position, in Lazarus time, for the coded strong-shock start values and the coded Lazarus (2.6) jump; '
           'lambda, B and the integrations are atoms.  Finding: with the speed implied by the solver\'s own time argument '
           'the mass flux is not conserved.  RMTV (partial): the coded Kamm Eq. 15 jump conserves mass and momentum flux, '
-          'keeps T, and balances the energy flux with the conductive flux H T W; xi_s and the integrations are atoms.',
+          'keeps T, and balances the energy flux with the conductive flux H T W; xi_s and the integrations are atoms.  Finding: the parameter xis does not position the shock (literal 1.0 in rs).',
 )
